@@ -620,7 +620,15 @@ def r4_ancillary_seeding(ctx):
             raise Undecided("ancillary seeding is not inside a for loop")
         vtxt = norm(val)
         from_anc = False
-        if isinstance(val, ast.Subscript) and norm(val.slice) == key:
+        # a local holding the looked-up value is followed to its definition
+        val_def = val
+        if isinstance(val, ast.Name) and hasattr(val, "_parent"):
+            from ..symres import Resolver as _Rs
+            rv_ = _Rs(fn).reaching_value(val)
+            if rv_ is not None:
+                val_def = rv_
+        if isinstance(val_def, ast.Subscript) and norm(
+                val_def.slice) == key:
             from_anc = True
         elif isinstance(loop.target, ast.Tuple) and len(
                 loop.target.elts) == 2 and isinstance(loop.iter, ast.Call) \
